@@ -775,6 +775,8 @@ func main() {
 		for i := 0; i < *n; i++ {
 			if i%3 == 2 {
 				emit(genE2ESSH(r.Fork()))
+			} else if i%6 == 4 {
+				emit(genE2EAcme(r.Fork()))
 			} else {
 				emit(genE2E(r.Fork()))
 			}
